@@ -289,7 +289,10 @@ def write_replay(prop_id, payload):
 
 
 def write_evidence(prop_id, ev):
-    d = os.path.join(ROOT, "evidence")
+    # evidence/ only ever describes runs against /repo itself; a run against a scratch tree (POSE_REPO, used by
+    # harness/eval_seeded.py for seeded changes) writes to replays/scratch-evidence/ instead
+    scratch = os.environ.get("POSE_REPO") not in (None, "", "/repo")
+    d = os.path.join(ROOT, "replays", "scratch-evidence") if scratch else os.path.join(ROOT, "evidence")
     os.makedirs(d, exist_ok=True)
     path = os.path.join(d, "%s.json" % prop_id)
     tmp = path + ".tmp"
